@@ -28,6 +28,10 @@ pub enum KOp {
     Send(u8),
     SendBytes(u16),
     Write(u16),
+    /// text through core::fmt::Write: 0 = write_str, 1 = write_char per character, 2 = write! with
+    /// arguments and a fill character; the characters are derived from the seed and include
+    /// U+0080..U+00FF and multi-byte code points
+    Fmt(u8, u16),
     /// the device fills the posted buffer with its next chunk, if a buffer is posted
     Deliver,
     Policy(Serve),
@@ -42,6 +46,27 @@ pub struct KCase {
     pub policy: Serve,
     pub chunks: Vec<u16>,
     pub ops: Vec<KOp>,
+}
+
+fn pad_left(s: &str, width: usize, fill: char) -> String {
+    let n = s.chars().count();
+    let mut out = String::new();
+    for _ in n..width {
+        out.push(fill);
+    }
+    out.push_str(s);
+    out
+}
+
+/// `write!` with a run-time fill character (format strings need it at compile time): the padding
+/// goes through `write_char`, like the formatting machinery does for a fill.
+fn write_padded<W: core::fmt::Write>(w: &mut W, first: char, text: &str, v: u16, fill: char) -> core::fmt::Result {
+    write!(w, "{}{}|", first, text)?;
+    let digits = v.to_string();
+    for _ in digits.chars().count()..6 {
+        w.write_char(fill)?;
+    }
+    write!(w, "{}", digits)
 }
 
 fn spat(i: u64) -> u8 {
@@ -147,6 +172,7 @@ impl WithT for Run<'_> {
         let mut consumed: u64 = 0;
         let mut synced: u64 = 0; // delivered bytes already moved into `pending`
         let mut tx_model: Vec<Vec<u8>> = Vec::new();
+        let mut fmt_used = false;
         let mut sig = Sig::new();
         sig.add(c.kind as u64).add(accepted);
         let (mut partial, mut peek_after_partial, mut later_chunk) = (false, false, false);
@@ -328,6 +354,50 @@ impl WithT for Run<'_> {
                     }
                     sig.add(7);
                 }
+                KOp::Fmt(how, seed) => {
+                    let pool = ['a', 'Z', '0', ' ', '\u{7f}', '\u{80}', '\u{a9}', '\u{e9}', '\u{ff}', '\u{100}', '\u{7ff}', '\u{800}', '\u{20ac}', '\u{ffff}', '\u{1f600}', '\n'];
+                    let len = 1 + (*seed as usize % 7);
+                    let text: String = (0..len).map(|k| pool[(*seed as usize / 7 + k * 5 + (*seed as usize >> 9)) % pool.len()]).collect();
+                    let fill = pool[(*seed as usize >> 5) % pool.len()];
+                    let mut want: Vec<u8> = Vec::new();
+                    let r = match how % 3 {
+                        0 => {
+                            want.extend(text.as_bytes());
+                            g!(what, core::fmt::Write::write_str(&mut con, &text))
+                        }
+                        1 => {
+                            want.extend(text.as_bytes());
+                            let mut r = Ok(());
+                            for c in text.chars() {
+                                r = g!(what, core::fmt::Write::write_char(&mut con, c));
+                                if r.is_err() {
+                                    break;
+                                }
+                            }
+                            r
+                        }
+                        _ => {
+                            // "{}" with a char and a &str argument, an integer padded with the fill character
+                            let first = text.chars().next().unwrap();
+                            let expect = match fill {
+                                '\n' => format!("{}{}|{:>6}", first, text, *seed),
+                                _ => format!("{}{}|{}", first, text, pad_left(&seed.to_string(), 6, fill)),
+                            };
+                            want.extend(expect.as_bytes());
+                            if fill == '\n' {
+                                g!(what, core::fmt::Write::write_fmt(&mut con, format_args!("{}{}|{:>6}", first, text, *seed)))
+                            } else {
+                                g!(what, write_padded(&mut con, first, &text, *seed, fill))
+                            }
+                        }
+                    };
+                    if r.is_err() {
+                        return Err(format!("{}: returned {:?}", what, r));
+                    }
+                    fmt_used = true;
+                    tx_model.push(want);
+                    sig.add(11);
+                }
                 KOp::Size => {
                     let r = g!(what, con.size());
                     let want = if accepted & F_SIZE != 0 { Some((0x50u16, 0x19u16)) } else { None };
@@ -367,7 +437,9 @@ impl WithT for Run<'_> {
                 }
             }
             let tx_seen = dev.with(|d| d.h.tx.clone());
-            if tx_seen != tx_model {
+            // formatted output may reach the queue in any chunking: compare the byte stream
+            let same = if fmt_used { tx_seen.concat() == tx_model.concat() } else { tx_seen == tx_model };
+            if !same {
                 return Err(format!("{}: transmit queue carried {} chains, expected {}; last seen {:x?}", what, tx_seen.len(), tx_model.len(), tx_seen.last().map(|v| v.iter().take(8).collect::<Vec<_>>())));
             }
         }
@@ -410,6 +482,7 @@ fn op() -> impl Strategy<Value = KOp> {
         1 => any::<u8>().prop_map(KOp::Send),
         1 => any::<u16>().prop_map(KOp::SendBytes),
         1 => any::<u16>().prop_map(KOp::Write),
+        2 => (0u8..3, any::<u16>()).prop_map(|(h, s)| KOp::Fmt(h, s)),
         6 => Just(KOp::Deliver),
         1 => drv::serve_strategy().prop_map(KOp::Policy),
         1 => Just(KOp::Size),
